@@ -180,23 +180,17 @@ func Verif_C12_Script() {
 }
 
 //verif:entry tier=thorough gosync steps=4000000 cover=fired,removed,reset,moved
-//verif:doc Script (thorough): slots n in {2,3}; pre-ticks < n; 4 (n=2) / 3 (n=3) operations on key a, each followed by 0..n ticks; delays in [1, 2n+1] intervals.
+//verif:doc Script (thorough): slots n = 2; pre-ticks < n; 4 operations on key a, each followed by 0..2 ticks (3 slots with 3 operations are covered by Script2Keys/Reuse); delays in [1, 2n+1] intervals.
 func Verif_C12_Script4() {
-	n := 2 + rt.Choose("slots", 2)
+	n := 2
 	w := c12New(n)
 	keys := []string{"a"}
 	pre := rt.Choose("preticks", n)
 	for i := 0; i < pre; i++ {
 		w.doTick(keys)
 	}
-	ticks := []int{}
-	for i := 0; i <= n; i++ {
-		ticks = append(ticks, i)
-	}
+	ticks := []int{0, 1, 2}
 	ops := 4
-	if n == 3 {
-		ops = 3 // 4 operations with 3 slots exceed the thorough budget (measured)
-	}
 	w.script(keys, ops, 2*n+1, ticks)
 }
 
@@ -210,11 +204,11 @@ func Verif_C12_Script2Keys() {
 }
 
 //verif:entry tier=quick,thorough gosync steps=4000000 cover=fired,leftover
-//verif:doc Reuse: a key is re-registered while its superseded entry is still linked in a slot: set; t1 ticks; (remove | move); set again; t2 ticks; (remove | move); closing ticks. slots n=2 (quick) / 2..4 (thorough), t1,t2 in {0,1,n}, delays in [1, 2n+1] intervals.
+//verif:doc Reuse: a key is re-registered while its superseded entry is still linked in a slot: set; t1 ticks; (remove | move); set again; t2 ticks; (remove | move); closing ticks. slots n=2 (quick) / 2..3 (thorough), t1,t2 in {0,1,n}, delays in [1, 2n+1] intervals.
 func Verif_C12_Reuse() {
 	n := 2
 	if rt.Tier() > 0 {
-		n = 2 + rt.Choose("slots", 3)
+		n = 2 + rt.Choose("slots", 2)
 	}
 	maxSteps := 2*n + 1
 	w := c12New(n)
